@@ -273,6 +273,7 @@ static void run_case(const drvargs_t *a,long id){
   if(exhaustive){
     char ctx[96];
     int stride=1; for(int i=0;i<cd.nlinks;i++) if(cd.cfg[i].channels>8) stride=7;   /* many-channel decode is slow: sample the targets */
+    if(modelmask && stride<5) stride=5;                                              /* so are model-made links with 4096/8192-sample blocks */
     for(int64_t p=(stride>1?(int64_t)(id%7):0);p<=L;p+=stride){
       int rc=ov_pcm_seek(&vf,p); int64_t T=ov_pcm_tell(&vf); res_eval(1);
       snprintf(ctx,sizeof ctx,"exhaustive pcm_seek(%lld)",(long long)p);
